@@ -234,6 +234,15 @@ pub fn glyf_overflow(base: &Tables, patches: &[&GkSpec]) -> bool {
     false
 }
 
+/// The patches list gvar and the patched gvar would hold no glyph data at all.
+pub fn gvar_result_empty(base: &Tables, patches: &[&GkSpec]) -> bool {
+    let c = candidates(patches);
+    if let (Some(cg), Ok(arr)) = (c.get(&GVAR), gvar_arr(base)) {
+        return fits_base(&arr, &GVAR, cg).0 == 0;
+    }
+    false
+}
+
 pub fn expected_map_bytes(base: &[u8], bits: &[usize]) -> Vec<u8> {
     let mut v = base.to_vec();
     for b in bits {
